@@ -315,15 +315,16 @@ Section Reader.
               Z.of_N (nth 3 (rc_hand c1) 0%N)).
     assert (Hn : 0 <= n) by apply hs_len_nonneg.
     destruct (Z.gtb_spec n 65536) as [G|G]; [discriminate|].
-    destruct (fill_hand_spec (Z.to_nat (4 + n) + 1) (4 + n) c1 buf1 Hr1 ltac:(lia)) as [F2 S2].
-    destruct (fill' (Z.to_nat (4 + n) + 1) (4 + n) c1 buf1) as [c2 buf2 d2|e|]; try discriminate.
+    remember (4 + n) as m eqn:Em.
+    destruct (fill_hand_spec (Z.to_nat m + 1) m c1 buf1 Hr1 ltac:(lia)) as [F2 S2].
+    destruct (fill' (Z.to_nat m + 1) m c1 buf1) as [c2 buf2 d2|e|]; try discriminate.
     destruct (S2 _ _ _ eq_refl) as [Hr2 Hb2]. unfold hand_cap in Hb2.
     intro H.
     repeat match type of H with
            | (if ?x then _ else _) = _ => destruct x; try discriminate
            end.
     injection H as _ <- <- _. cbn [rc_hand rc_retry with_read].
-    rewrite zlen_zdrop_gen, zlen_ztake_gen. Show. lia.
+    rewrite zlen_zdrop_gen, zlen_ztake_gen. lia.
   Qed.
 
   (* once the transport is closed every read returns: at a record boundary
@@ -337,6 +338,6 @@ Section Reader.
   Proof.
     intros H Hb. cbn [rroc]. rewrite H. unfold rx_record32.
     replace (zlen buf <? 5) with true by (symmetry; apply Z.ltb_lt; lia).
-    destruct buf; [rewrite zlen_nil in Hb; lia|reflexivity].
+    destruct buf; [unfold zlen in Hb; cbn in Hb; lia|reflexivity].
   Qed.
 End Reader.
